@@ -22,9 +22,15 @@ Definition merge_section_typed (x : obj) : Prop :=
     (forall v, lookup "combiner" e = Some v -> is_jstr v = true) /\
     (forall a, lookup "sequential_propagated_params" e = Some (JArr a) -> forallb is_jstr a = true).
 
+(* an async agent: non-negative consumer timeout, typed merge section (its pipe is built by the
+   same factory), a host for every backend *)
+Definition agent_typed (s : svc) (a : agent) : Prop :=
+  (0 <= a_timeout a)%Z /\ merge_section_typed (a_extra a) /\ Forall (has_host s) (a_backends a).
+
 Definition well_typed (s : svc) : Prop :=
   nonneg_cfg s /\
-  Forall (fun e => merge_section_typed (e_extra e) /\ Forall (has_host s) (e_backends e)) (s_endpoints s).
+  Forall (fun e => merge_section_typed (e_extra e) /\ Forall (has_host s) (e_backends e)) (s_endpoints s) /\
+  Forall (agent_typed s) (s_agents s).
 
 Definition nonneg_endpoint_b (e : endpoint) : bool :=
   ((0 <=? e_timeout e) && (0 <=? e_cache e) && (0 <=? e_cc e))%Z.
@@ -41,7 +47,10 @@ Definition well_typed_b (s : svc) : bool :=
   forallb nonneg_endpoint_b (s_endpoints s) &&
   forallb (fun e => merge_section_typed_b (e_extra e) &&
                     forallb (fun b => nonempty (b_host b) || nonempty (s_host s)) (e_backends e))
-          (s_endpoints s).
+          (s_endpoints s) &&
+  forallb (fun a => (0 <=? a_timeout a)%Z && merge_section_typed_b (a_extra a) &&
+                    forallb (fun b => nonempty (b_host b) || nonempty (s_host s)) (a_backends a))
+          (s_agents s).
 
 (* ------------------------------------------------------------------------------------ *)
 (* configurations that must be rejected *)
@@ -54,7 +63,8 @@ Section Rejects.
   (* a host of the service, or of a backend that did not switch the sanitiser off *)
   Definition invalid_host (s : svc) : Prop :=
     bad_host_in (s_host s) \/
-    exists e b, In e (s_endpoints s) /\ In b (e_backends e) /\ b_nosan b = false /\ bad_host_in (b_host b).
+    (exists e b, In e (s_endpoints s) /\ In b (e_backends e) /\ b_nosan b = false /\ bad_host_in (b_host b)) \/
+    (exists a b, In a (s_agents s) /\ In b (a_backends a) /\ b_nosan b = false /\ bad_host_in (b_host b)).
   Definition no_backends (e : endpoint) : Prop := e_backends e = [].
   (* reserved or malformed path (Proof/C17.v characterises invalid_path without the scanner) *)
   Definition bad_path (e : endpoint) : Prop := invalid_path (clean_path (e_path e)) = true.
@@ -85,6 +95,7 @@ Section Rejects.
     negb (s_version s =? config_version)%Z ||
     bad_host_in_b (s_host s) ||
     existsb (fun e => existsb (fun b => negb (b_nosan b) && bad_host_in_b (b_host b)) (e_backends e)) (s_endpoints s) ||
+    existsb (fun a => existsb (fun b => negb (b_nosan b) && bad_host_in_b (b_host b)) (a_backends a)) (s_agents s) ||
     existsb (fun e =>
       negb (nonempty (e_backends e)) ||
       invalid_path (clean_path (e_path e)) ||
@@ -117,6 +128,14 @@ Section Post.
     Forall canonical (b_hdrs b') /\
     placeholders_resolvable decl (b_url b) (b_keys b').
 
+  (* async agents: Init gives their backends hosts, a method, the consumer timeout, a decoder *)
+  Definition post_agent_backend (b b' : backend) : Prop :=
+    b_method b' <> "" /\ (0 < b_timeout b')%Z /\ b_dec b' <> DNil /\
+    (b_nosan b = false -> Forall sanitised (b_host b')) /\ b_host b' <> [].
+  Definition post_agent (a a' : agent) : Prop :=
+    (0 < a_timeout a')%Z /\ (1 <= a_workers a')%Z /\ (second <= a_health a')%Z /\
+    Forall2 post_agent_backend (a_backends a) (a_backends a').
+
   Definition post_endpoint (s : svc) (e e' : endpoint) : Prop :=
     e_method e' <> "" /\ (0 < e_timeout e')%Z /\ (1 <= e_cc e')%Z /\
     Forall canonical (e_hdrs e') /\
@@ -134,7 +153,9 @@ Record bobs := {
 Record eobs := {
   oe_method : string;  oe_timeout : Z;  oe_cc : Z;  oe_hdrs : list string;
   oe_backends : list bobs;  oe_factory : fkind }.
-Inductive obs := OPanic | OErr | OOk (es : list eobs).
+Record aobs := {
+  oa_timeout : Z;  oa_workers : Z;  oa_health : Z;  oa_backends : list bobs;  oa_factory : fkind }.
+Inductive obs := OPanic | OErr | OOk (es : list eobs) (ags : list aobs).
 
 Definition kind_of (f : fres) : fkind := match f with FOk => KOk | FErr => KErr | FPanic _ => KPanic end.
 Definition bobs_of (b : backend) : bobs :=
@@ -143,10 +164,14 @@ Definition bobs_of (b : backend) : bobs :=
 Definition eobs_of (readable : string -> bool) (e : endpoint) : eobs :=
   {| oe_method := e_method e; oe_timeout := e_timeout e; oe_cc := e_cc e; oe_hdrs := e_hdrs e;
      oe_backends := map bobs_of (e_backends e); oe_factory := kind_of (factory_new readable e) |}.
-(* what the model predicts the harness sees: Parse, then DefaultFactory.New per endpoint *)
+Definition aobs_of (readable : string -> bool) (a : agent) : aobs :=
+  {| oa_timeout := a_timeout a; oa_workers := a_workers a; oa_health := a_health a;
+     oa_backends := map bobs_of (a_backends a); oa_factory := kind_of (agent_factory_new readable a) |}.
+(* what the model predicts the harness sees: Parse, then DefaultFactory.New per endpoint, and per
+   async agent through AgentStarter.Start *)
 Definition obs_of (readable : string -> bool) (r : result svc) : obs :=
   match r with
-  | Ok c => OOk (map (eobs_of readable) (s_endpoints c))
+  | Ok c => OOk (map (eobs_of readable) (s_endpoints c)) (map (aobs_of readable) (s_agents c))
   | Err _ => OErr
   | Panic _ => OPanic
   end.
@@ -194,13 +219,22 @@ Section Oracle.
     forallb2 (post_backend_b (declared s e)) (e_backends e) (oe_backends o) &&
     negb (is_kpanic (oe_factory o)).
 
+  Definition post_agent_backend_b (b : backend) (o : bobs) : bool :=
+    negb (str_eqb (ob_method o) "") && (0 <? ob_timeout o)%Z && negb (is_dnil (ob_dec o)) &&
+    (b_nosan b || forallb sanitised_b (ob_host o)) && nonempty (ob_host o).
+  Definition post_agent_b (a : agent) (o : aobs) : bool :=
+    (0 <? oa_timeout o)%Z && (1 <=? oa_workers o)%Z && (second <=? oa_health o)%Z &&
+    forallb2 post_agent_backend_b (a_backends a) (oa_backends o) &&
+    negb (is_kpanic (oa_factory o)).
+
   (* the property, evaluated on what the implementation did with configuration s *)
   Definition spec_b (s : svc) (o : obs) : bool :=
     if well_typed_b s then
       match o with
       | OPanic => false
       | OErr => true
-      | OOk es => negb (must_reject_b (tbl_fun tbl) s) && forallb2 (post_endpoint_b s) (s_endpoints s) es
+      | OOk es ags => negb (must_reject_b (tbl_fun tbl) s) && forallb2 (post_endpoint_b s) (s_endpoints s) es &&
+                      forallb2 post_agent_b (s_agents s) ags
       end
     else true.
 End Oracle.
@@ -217,8 +251,17 @@ Definition eobs_ok (clean_host : string -> option string) (s : svc) (e : endpoin
   Forall canonical (oe_hdrs oe) /\
   Forall2 (bobs_ok clean_host (declared s e)) (e_backends e) (oe_backends oe) /\
   oe_factory oe <> KPanic.
+Definition abobs_ok (clean_host : string -> option string) (b : backend) (ob : bobs) : Prop :=
+  ob_method ob <> "" /\ (0 < ob_timeout ob)%Z /\ ob_dec ob <> DNil /\
+  (b_nosan b = false -> Forall (sanitised clean_host) (ob_host ob)) /\ ob_host ob <> [].
+Definition aobs_ok (clean_host : string -> option string) (a : agent) (oa : aobs) : Prop :=
+  (0 < oa_timeout oa)%Z /\ (1 <= oa_workers oa)%Z /\ (second <= oa_health oa)%Z /\
+  Forall2 (abobs_ok clean_host) (a_backends a) (oa_backends oa) /\
+  oa_factory oa <> KPanic.
 Definition Spec (tbl : list (string * option string)) (s : svc) (o : obs) : Prop :=
   well_typed s ->
   o <> OPanic /\
   (must_reject (tbl_fun tbl) s -> o = OErr) /\
-  (forall es, o = OOk es -> Forall2 (eobs_ok (tbl_fun tbl) s) (s_endpoints s) es).
+  (forall es ags, o = OOk es ags ->
+     Forall2 (eobs_ok (tbl_fun tbl) s) (s_endpoints s) es /\
+     Forall2 (aobs_ok (tbl_fun tbl)) (s_agents s) ags).
